@@ -1,7 +1,7 @@
 (* run_case: the single entry point of the extracted model.  One case term in, one observation
    term out; the same function is evaluated with vm_compute for the extraction cross-check. *)
 From Coq Require Import String.
-From AvroV Require Import Base Varint Schema Bytes Names Codec Sexp.
+From AvroV Require Import Base Varint Schema Bytes Names Codec Rabin Sexp.
 Local Open Scope string_scope.
 
 Definition run_fuel : nat := 300.
@@ -45,6 +45,11 @@ Definition run_case (x : sexp) : sexp :=
             (do nmz <- resolved s; decode run_fuel c nmz None s b)
         | _, _ => obs_bad
         end
+      | _ => obs_bad
+      end
+    else if op =? "rabin" then
+      match args with
+      | [Hex b] => L [Sym "ok"; Hex (rabin_digest b); Hex (so_header b)]
       | _ => obs_bad
       end
     else obs_bad
